@@ -13,10 +13,12 @@ import (
 	"bytes"
 	"context"
 	"encoding/json"
+	"errors"
 	"fmt"
 	"hash/crc64"
 	"math/rand"
 	"os"
+	"runtime"
 	"sort"
 	"strings"
 	"testing"
@@ -41,7 +43,16 @@ type c11Op struct {
 	KeyOnly bool
 	Prev    []byte // nil = "must not exist"
 	Script  []c11Act
-	Class   []string // boundary classes this op was generated for
+	Ctx     c11CtxPlan // what happens to the call's context
+	Class   []string   // boundary classes this op was generated for
+}
+
+func (o *c11Op) mutating() bool {
+	switch o.Kind {
+	case "put", "putttl", "delete", "batchput", "batchputttl", "batchdelete", "deleterange", "cas":
+		return true
+	}
+	return false
 }
 
 func (o *c11Op) desc() map[string]any {
@@ -78,6 +89,7 @@ func (o *c11Op) desc() map[string]any {
 	if o.Kind == "cas" {
 		d["prev"] = c11q(o.Prev)
 	}
+	d["context"] = map[string]any{"kind": o.Ctx.name(), "at": o.Ctx.At, "deliver": o.Ctx.Deliver}
 	if len(o.Script) > 0 {
 		var s []map[string]any
 		for _, a := range o.Script {
@@ -367,6 +379,169 @@ func c11CheckTTL(env *c11Env, m *c11Model, o *c11Op) (vs []c11Viol) {
 		}
 		if got != want {
 			vs = append(vs, c11Viol{o.Kind + ":ttl", fmt.Sprintf("%s: key %s reached the store with ttl %d, the caller gave %d", o.Kind, c11q(k), got, want)})
+			break
+		}
+	}
+	return
+}
+
+// c11ResolveEnded handles a mutating call that failed under an ended context:
+// every affected key must hold its old or its new value in the store (a
+// delete-range must not leave a region half deleted when the layout did not
+// change during the call); the keys are read back through the client with a
+// live context and must agree with the store; the model is pinned to what was
+// read and the store must not change afterwards (no late write by a leftover
+// goroutine of the failed call).
+func c11ResolveEnded(r *vrep.Report, env *c11Env, m *c11Model, o *c11Op, c *Client, regsBefore []*metapb.Region, layoutChanged bool) (vs []c11Viol) {
+	add := func(sig, format string, a ...any) {
+		vs = append(vs, c11Viol{o.Kind + ":ctx-ended:" + sig, fmt.Sprintf(format, a...)})
+	}
+	cf := o.CF
+	type outcome struct {
+		present bool
+		v       []byte
+	}
+	newOf := map[string]outcome{}
+	var keys [][]byte
+	addKey := func(k []byte, n outcome) {
+		if _, ok := newOf[string(k)]; !ok {
+			keys = append(keys, k)
+		}
+		newOf[string(k)] = n // the last duplicate wins
+	}
+	switch o.Kind {
+	case "put", "putttl":
+		addKey(o.Keys[0], outcome{true, append([]byte{}, o.Vals[0]...)})
+	case "delete":
+		addKey(o.Keys[0], outcome{})
+	case "batchput", "batchputttl":
+		for i, k := range o.Keys {
+			addKey(k, outcome{true, append([]byte{}, o.Vals[i]...)})
+		}
+	case "batchdelete":
+		for _, k := range o.Keys {
+			addKey(k, outcome{})
+		}
+	case "deleterange":
+		if len(o.End) == 0 || bytes.Compare(o.Start, o.End) < 0 {
+			for _, k := range m.keysIn(cf, o.Start, o.End) {
+				addKey(k, outcome{})
+			}
+		}
+	case "cas":
+		k := o.Keys[0]
+		mv, ok := m.get(cf, k)
+		match := ok && o.Prev != nil && bytes.Equal(mv, o.Prev)
+		if o.Prev == nil {
+			match = !ok
+		}
+		if match {
+			addKey(k, outcome{true, append([]byte{}, o.Vals[0]...)})
+		} else {
+			addKey(k, outcome{ok, mv})
+		}
+	}
+	truth := env.storeDump(cf)
+	nOld, nNew := 0, 0
+	isNew := map[string]bool{}
+	for _, k := range keys {
+		mv, mok := m.get(cf, k)
+		tv, tok := truth[string(k)]
+		nw := newOf[string(k)]
+		oldOK := tok == mok && (!tok || bytes.Equal(tv, mv))
+		newOK := tok == nw.present && (!tok || bytes.Equal(tv, nw.v))
+		switch {
+		case newOK && !oldOK:
+			nNew++
+			isNew[string(k)] = true
+		case oldOK && !newOK:
+			nOld++
+		case !oldOK && !newOK:
+			add("neither-old-nor-new", "%s failed under an ended context; key %s then holds %s (present=%v), neither the old value %s (present=%v) nor the new one %s (present=%v)", o.Kind, c11q(k), c11q(tv), tok, c11q(mv), mok, c11q(nw.v), nw.present)
+			return
+		}
+	}
+	switch {
+	case nNew == 0:
+		r.Count("ctx_failed_mutation_left_all_old", 1)
+	case nOld == 0:
+		r.Count("ctx_failed_mutation_left_all_new", 1)
+	default:
+		r.Count("ctx_failed_mutation_left_a_mix", 1)
+	}
+	if o.Kind == "deleterange" && !layoutChanged {
+		for _, reg := range regsBefore {
+			del, kept := 0, 0
+			for _, k := range keys {
+				if bytes.Compare(reg.StartKey, k) <= 0 && (len(reg.EndKey) == 0 || bytes.Compare(k, reg.EndKey) < 0) {
+					if isNew[string(k)] {
+						del++
+					} else {
+						kept++
+					}
+				}
+			}
+			if del > 0 && kept > 0 {
+				add("region-half-deleted", "DeleteRange [%s,%s) failed under an ended context; in region [%s,%s) (layout unchanged during the call) %d keys of the range were deleted and %d kept", c11q(o.Start), c11q(o.End), c11q(reg.StartKey), c11q(reg.EndKey), del, kept)
+				break
+			}
+		}
+	}
+	// read back through the client with a live context
+	if len(keys) > 0 {
+		ctx := context.Background()
+		var opts []RawOption
+		if cf != "" {
+			opts = append(opts, SetColumnFamily(cf))
+		}
+		var got [][]byte
+		var err error
+		if len(keys) <= 8 {
+			for _, k := range keys {
+				var v []byte
+				if v, err = c.Get(ctx, k, opts...); err != nil {
+					break
+				}
+				got = append(got, v)
+			}
+		} else {
+			got, err = c.BatchGet(ctx, keys, opts...)
+		}
+		r.Count("ctx_readbacks", 1)
+		if err != nil {
+			add("readback-error", "reading the keys back with a live context after the failed %s failed: %v", o.Kind, err)
+		} else if len(got) != len(keys) {
+			add("readback-length", "reading %d keys back returned %d values", len(keys), len(got))
+		} else {
+			for i, k := range keys {
+				tv, tok := truth[string(k)]
+				if (got[i] != nil) != tok || (tok && !bytes.Equal(got[i], tv)) {
+					add("readback-differs", "after the failed %s a live read of key %s returns %s but the store holds %s (present=%v)", o.Kind, c11q(k), c11q(got[i]), c11q(tv), tok)
+					break
+				}
+			}
+		}
+	}
+	// pin the model to what the store holds
+	for _, k := range keys {
+		if tv, tok := truth[string(k)]; tok {
+			m.put(cf, k, tv)
+		} else {
+			m.del(cf, k)
+		}
+		if t, ok := env.shadowTTL(cf, k); ok {
+			m.ttl[cf][string(k)] = t
+		}
+	}
+	env.takeTTLError()
+	// stability: nothing of the failed call may land later
+	runtime.Gosched()
+	after := env.storeDump(cf)
+	for _, k := range keys {
+		tv, tok := truth[string(k)]
+		av, aok := after[string(k)]
+		if tok != aok || !bytes.Equal(tv, av) {
+			add("late-write", "key %s changed from %s (present=%v) to %s (present=%v) after the failed %s had returned", c11q(k), c11q(tv), tok, c11q(av), aok, o.Kind)
 			break
 		}
 	}
@@ -757,6 +932,19 @@ func (g *c11Gen) op(nClients int) *c11Op {
 	if g.rng.Intn(2) == 0 {
 		o.Script = g.script(o)
 	}
+	switch x := g.rng.Intn(20); {
+	case x < 10:
+	case x < 12:
+		o.Ctx = c11CtxPlan{Kind: "cancel-after"}
+	case x < 16:
+		o.Ctx = c11CtxPlan{Kind: "cancel-at"}
+	default:
+		o.Ctx = c11CtxPlan{Kind: "deadline-at"}
+	}
+	if o.Ctx.during() {
+		o.Ctx.At = []int{0, 0, 0, 1, 1, 2, 3, 5}[g.rng.Intn(8)]
+		o.Ctx.Deliver = g.rng.Intn(2) == 0
+	}
 	return o
 }
 
@@ -835,9 +1023,30 @@ func (s *c11Seq) step(o *c11Op) int {
 		b, _ := json.Marshal(map[string]any{"i": i, "op": o.desc(), "layout": layoutBefore})
 		s.t.Logf("[c11] %s", b)
 	}
-	ctx := h.arm(o.Script)
+	ctx := h.arm(o.Script, o.Ctx)
 	panicked := c11Recover(r, o.Kind, detail, func() { x = c11Exec(ctx, env.clients[o.Client], o) })
+	if o.Ctx.Kind == "cancel-after" {
+		ctx.end(context.Canceled, -1)
+		runtime.Gosched()
+	}
 	obs = h.disarm()
+	r.Count("ctx_"+o.Ctx.name()+"_calls", 1)
+	if obs.CtxEnded {
+		r.Count("ctx_"+o.Ctx.name()+"_ended_during_call", 1)
+		if o.Ctx.Deliver {
+			r.Count("ctx_"+o.Ctx.name()+"_ended_after_rpc_executed", 1)
+		} else {
+			r.Count("ctx_"+o.Ctx.name()+"_ended_rpc_not_delivered", 1)
+		}
+		if x.Err != nil {
+			r.Count("ctx_"+o.Ctx.name()+"_call_failed", 1)
+			if errors.Is(x.Err, context.Canceled) || errors.Is(x.Err, context.DeadlineExceeded) {
+				r.Count("ctx_"+o.Ctx.name()+"_error_is_context_error", 1)
+			}
+		} else {
+			r.Count("ctx_"+o.Ctx.name()+"_call_succeeded", 1)
+		}
+	}
 	if obs.OverBudget {
 		r.Violate(o.Kind+":no-progress", fmt.Sprintf("%s issued more than %d requests without finishing (the harness then cancelled it)", o.Kind, c11RequestBudget), detail())
 		if c11NoProgress.Add(1) == 5 {
@@ -897,7 +1106,17 @@ func (s *c11Seq) step(o *c11Op) int {
 		c11Resync(env, m)
 		return 1
 	}
-	vs := c11Expect(env, m, o, &x, s.atomic, c11ChecksumCF)
+	var vs []c11Viol
+	if obs.CtxEnded && x.Err != nil && !panicked {
+		// The caller's context ended during the call and the call failed: that
+		// is allowed.  A read then says nothing; a mutating call leaves each
+		// affected key with its old or its new value.
+		if o.mutating() {
+			vs = c11ResolveEnded(r, env, m, o, env.clients[o.Client], regsBefore, len(obs.Fired) > 0)
+		}
+	} else {
+		vs = c11Expect(env, m, o, &x, s.atomic, c11ChecksumCF)
+	}
 	for _, v := range vs {
 		r.Violate(v.sig, v.msg, detail())
 	}
